@@ -260,7 +260,7 @@ func (c *Ctx) finish(verifDir string, seed int, wall float64, explanation string
 	}
 	ev := Evidence{PropertyID: c.Prop, Tier: c.Tier, Seed: seed, Level: "other", Coverage: cov,
 		Assumptions: assumptions, WallS: wall, Violations: nViol}
-	evPath := filepath.Join(verifDir, "evidence", c.Prop+".json")
+	evPath := filepath.Join(evidenceDir(verifDir), c.Prop+".json")
 	os.MkdirAll(filepath.Dir(evPath), 0o755)
 	b, _ := json.MarshalIndent(ev, "", " ")
 	if err := os.WriteFile(evPath, append(b, '\n'), 0o644); err != nil {
@@ -269,7 +269,7 @@ func (c *Ctx) finish(verifDir string, seed int, wall float64, explanation string
 	}
 	fmt.Printf("ycheck property=%s tier=%s rules=%d obligations=%d discharged=%d known=%d violated=%d undecided=%d functions=%d wall=%.1fs\n",
 		c.Prop, c.Tier, len(c.Rules), len(c.Obs), nDis, nKnown, nViol, nUndec, len(c.funcs), wall)
-	violPath := filepath.Join(verifDir, "evidence", c.Prop+".violations.json")
+	violPath := filepath.Join(evidenceDir(verifDir), c.Prop+".violations.json")
 	for _, o := range undec {
 		fmt.Printf("  undecided %s %s at %s: %s\n", o.Rule, o.Construct, o.Pos, firstLines(o.Detail, 6))
 	}
@@ -296,4 +296,17 @@ func firstLines(s string, n int) string {
 		parts = parts[:n]
 	}
 	return strings.Join(parts, "\n")
+}
+
+// evidenceOverride redirects evidence and violation files (development aids
+// that run the checks against a temporarily modified tree must not overwrite
+// the evidence of the real tree).
+var evidenceOverride string
+
+func evidenceDir(verifDir string) string {
+	if evidenceOverride != "" {
+		os.MkdirAll(evidenceOverride, 0o755)
+		return evidenceOverride
+	}
+	return filepath.Join(verifDir, "evidence")
 }
